@@ -16,7 +16,7 @@ Model for C16 "copies, virtual entities and documents never share mutable state"
     correspondence stream X2 (recipes parsed from the current source text);
   * `Graph`, `checkGraph`: the certificate checker run by `decide +kernel` on the object graphs extracted
     from the real library on every run (Gen/HeapGraphs.lean);
-  * `allowedFrozen`, `knownShared`, `allowedNav`, `aliasAllowed`, `shallowAllowed`: the explicit lists of
+  * `allowedFrozen`, `allowedNav`, `aliasAllowed`, `shallowAllowed`: the explicit lists of
     what may be shared, with reasons.
 
 Core Lean only.
@@ -424,16 +424,6 @@ def allowedFrozen : List Rule := [
   ("*", "*", "entity")
 ]
 
-/-- genuine defects of the unchanged tree (KNOWN findings of C16, see known.d/C16.json): tolerated here so
-    that every *other* sharing is still reported; delete an entry when the defect is fixed -/
-def knownShared : List Rule := [
-  -- C16-1: Body.copy_data assigns `entity._temporary_transformation = self._temporary_transformation`
-  ("TransformByBlockReference", "*", "_temporary_transformation"),
-  -- C16-4: tools/standards.py setup_visual_styles_r2013 stores the module level Tags of VISUAL_STYLES_R2013
-  -- in every document created by ezdxf.new(..., setup=True)
-  ("Tags", "VisualStyle", "acad_xdata")
-]
-
 /-! ### which parts a copy_data method may pass by reference (checked against the recipes derived from the
     source text, Gen/HeapGraphs.lean `recipes`) -/
 
@@ -442,7 +432,7 @@ def aliasAllowed : List (String × String) := [
   ("*", "sat"),                 -- tuple of str ("immutable sequence of strings, so the data can be shared")
   ("*", "sab"),                 -- bytes
   ("MText", "text"),            -- str
-  ("VBAProject", "data"),       -- bytes (what copy_data should read: see finding C16-2)
+  ("VBAProject", "data"),       -- bytes
   ("Dictionary", "_value_code"), ("DictionaryWithDefault", "_value_code"),   -- int
   ("DictionaryWithDefault", "_default"),                                     -- Frozen: soft pointer
   ("Image", "_image_def"), ("*", "_underlay_def"),                           -- Frozen: definition objects
@@ -457,25 +447,19 @@ def shallowAllowed : List (String × String) := [
   ("Leader", "vertices"),       -- list of Vec3
   ("Viewport", "_frozen_layers"),   -- list of str
   ("XRecord", "tags"),          -- Tags of DXFTag value objects
-  ("SortEntsTable", "table")    -- dict str -> str (what copy_data should copy: see finding C16-3)
-]
-
-/-- known defects visible in the source text: C16-1 (alias of a mutable object), C16-2 / C16-3
-    (`entity.x = entity.x`: the clone keeps the empty default instead of the value of the source) -/
-def knownRecipeDefects : List (String × String × String) := [
-  ("*", "_temporary_transformation", "alias"),
-  ("VBAProject", "data", "init"), ("SortEntsTable", "table", "init")
+  ("SortEntsTable", "table")    -- dict str -> str
 ]
 
 def partListed (l : List (String × String)) (cls part : String) : Bool :=
   l.any (fun r => (r.1 == "*" || r.1 == cls) && r.2 == part)
 
-/-- is the policy of `(class, part, policy)` acceptable without / with the known defects -/
-def recipeOK (known : Bool) (r : String × String × String) : Bool :=
-  r.2.2 == "deep" || r.2.2 == "ents" || r.2.2 == "reset" ||
+/-- is the policy of `(class, part, policy)` acceptable: deepcopy, strategy copy of sub-entities, reset, a new
+    default object (`entity.x = SomeClass()`), or by reference for a listed part.  `init` (`entity.x = entity.x`,
+    the defect fixed by 9cace061f) and an unlisted alias (the defect fixed by 3a74eae26) are rejected. -/
+def recipeOK (r : String × String × String) : Bool :=
+  r.2.2 == "deep" || r.2.2 == "ents" || r.2.2 == "reset" || r.2.2 == "fresh" ||
   (r.2.2 == "alias" && partListed aliasAllowed r.1 r.2.1) ||
-  (r.2.2 == "shallow" && partListed shallowAllowed r.1 r.2.1) ||
-  (known && knownRecipeDefects.any (fun k => (k.1 == "*" || k.1 == r.1) && k.2.1 == r.2.1 && k.2.2 == r.2.2))
+  (r.2.2 == "shallow" && partListed shallowAllowed r.1 r.2.1)
 
 /-- navigation references that the extractor does not follow (they are not owning references) -/
 def allowedNav : List (String × String) := [
@@ -487,13 +471,10 @@ def allowedNav : List (String × String) := [
   ("attr", "_source_block_reference")
 ]
 
-/-- the explicit Frozen list together with the known defects -/
-def tolerated : List Rule := allowedFrozen ++ knownShared
-
 /-! ### small instances used by the non-vacuity checks of Props/C16.lean -/
 
-/-- the heap of finding C16-1 in miniature: source `0` and copy `1` own the same mutable cell `2`
-    (as BODY and its copy own one `_temporary_transformation`) -/
+/-- regression fact, the configuration of ezdxf BEFORE fix 3a74eae26 in miniature: source `0` and copy `1` own the
+    same mutable cell `2` (as BODY and its copy owned one `_temporary_transformation`) -/
 def aliasedHeap : Heap := [⟨.cell, [.own 2, .val 7]⟩, ⟨.cell, [.own 2, .val 7]⟩, ⟨.cell, [.val 0]⟩]
 
 /-- a separated pair: source `0` -> `2`, copy `1` -> `3`, both point to the frozen resource `4` -/
